@@ -108,7 +108,7 @@ def describe(case):
 
 def run(chk):
     chk.prove([loc_tr.translate])
-    n = 1200 if chk.thorough else 220
+    n = 1200 if chk.thorough else 180
     cases = [corpus_case(j) for _, j in L.corpus_files("C33")]      # corpus first
     cases += [gen_case(chk.rng.split("fixed%d" % i), k) for i, k in enumerate(["obj", "match"] * 3)]
     cases += [gen_case(chk.rng.split(i)) for i in range(n)]
